@@ -9,6 +9,6 @@ def jobs(tier):
 META = {
     "trusted_base": D.DFS_TRUSTED + ["std::all_of over 8 bytes with an equality lambda is rewritten to bytes_all_equal() (rule)"],
     "assumptions": ["Opus volume table: nothing is stated about slots that follow an absent one (the repository does not say whether DDOS allows such tables)"],
-    "outside": ["probe_geometry / make_candidate_list (lambdas over std::vector<ImageFileFormat>, min_element)", "the decision structure of smells_like_opus_ddos (try/catch, per-volume Volume and Catalog objects; the OpusDiscCatalogue constructor it relies on IS under contract)", "has_valid_dfs_catalog and the entry loop of CatalogFragment::valid (its header checks ARE under contract)"],
+    "outside": ["probe_geometry / make_candidate_list (lambdas over std::vector<ImageFileFormat>, min_element)", "the decision structure of smells_like_opus_ddos (try/catch, per-volume Volume and Catalog objects; the OpusDiscCatalogue constructor it relies on IS under contract)", "has_valid_dfs_catalog (CatalogFragment::valid itself, header checks and entry loop, IS under contract; get_entry_at_offset is a model)"],
     "explanation": "HDFS flag bit; Watford <=> sector 2 readable, 8 x 0xAA, no catalogued file with 10-bit start sector 2 (the only sector it reads is sector 2); probe_format: HDFS, else Watford, else Opus DDOS, else Acorn DFS (smells_like_acorn_dfs: no HDFS bit, not Watford, no Opus table, valid catalogue), each with the sector count that variant defines from sector 1 as read; the Opus and catalogue-validity probes are unconstrained models there",
 }
